@@ -280,6 +280,36 @@ class Engine:
 					items.clear()
 			if bytes(second.serialize()) != data:
 				ctx.fail('property', f'{net.name}.{type_name}: two values decoded from the same bytes share an array (clearing it in one changes the other)', ident)
+			# the other direction: an array that decoded EMPTY is grown in place in one value (the idiom `decoded.cosignatures.append(...)`);
+			# a value decoded afterwards, and the one decoded before, must still hold what the bytes say
+			array_fields = [field for field in typedef['fields'] if 'array' == field['kind']['k']]
+			if array_fields and all(getattr(obj, codec.fix_name(field['name']), None) for field in array_fields):
+				# no array of this value is empty: use the encoding of the value with its arrays emptied (sizes and counts follow)
+				emptied = codec.guarded(cls.deserialize, data)
+				for field in array_fields:
+					setattr(emptied, codec.fix_name(field['name']), [])
+				try:
+					data = bytes(emptied.serialize())
+					second = codec.guarded(cls.deserialize, data)
+				except Exception:  # pylint: disable=broad-except
+					array_fields = []
+			grown = codec.guarded(cls.deserialize, data) if array_fields else None
+			touched = False
+			for field in array_fields:
+				items = getattr(grown, codec.fix_name(field['name']), None)
+				if isinstance(items, list) and not items:
+					try:
+						items.append(net.to_obj(field['kind']['elem'], self.gen.value(field['kind']['elem'], 2)))
+						touched = True
+					except Exception:  # pylint: disable=broad-except
+						pass
+			if touched:
+				later = codec.guarded(cls.deserialize, data)
+				ctx.count('history:grow-an-empty-decoded-array')
+				if bytes(later.serialize()) != data or bytes(second.serialize()) != data:
+					ctx.fail('property', (
+						f'{net.name}.{type_name}: appending to an array that decoded empty in one value changes other values decoded from the same bytes '
+						'(decoded values share one empty list)'), ident)
 			fresh = cls()
 			for attribute in arrays:
 				items = getattr(fresh, attribute, None)
